@@ -31,7 +31,7 @@ text = '\n'.join(out)
 dp = os.path.join(ROOT, 'DESIGN.md')
 s = open(dp).read()
 if '## 9. Seeded changes' in s:
-    s = re.sub(r'## 9\. Seeded changes.*?(?=\n## Appendix A)', text, s, flags=re.S)
+    s = re.sub(r'## 9\. Seeded changes.*?(?=\n## (?:10\.|Appendix A))', text, s, flags=re.S)
 else:
     s = s.replace('## Appendix A — reference layouts', text + '\n## Appendix A — reference layouts')
 open(dp, 'w').write(s)
